@@ -131,7 +131,8 @@ type Field3 struct {
 	Default    float64
 	OffLattice atomic.Int64
 	Evals      atomic.Int64
-	Hook       func() // called on every evaluation (scheduler yield point), may be nil
+	Hook       func()           // called on every evaluation (scheduler yield point), may be nil
+	HookIdx    func(linear int) // called with the linear corner index of every on-lattice evaluation, may be nil
 }
 
 // NewField3 returns a field with every corner set to def.
@@ -175,6 +176,9 @@ func (f *Field3) Evaluate(p v3.Vec) float64 {
 			return f.Centre
 		}
 		i, j, k = i/2, j/2, k/2
+	}
+	if f.HookIdx != nil {
+		f.HookIdx((i*f.ny+j)*f.nz + k)
 	}
 	return f.V[(i*f.ny+j)*f.nz+k]
 }
